@@ -254,6 +254,10 @@ def ob_newton(env):
         env.claim("returned_point_within_tolerance_of_its_surface", aerr < bound)
     else:
         env.claim("returned_point_within_tolerance_of_its_surface", abs(err) < atol * max(1.0, abs(c.psival)))
+    # refinement moves a point ACROSS the flux surfaces (along the normal of the contour), not along the contour: a displacement along the tangent
+    # changes the poloidal position of the grid point and, psi being stationary along the contour, cannot correct psi
+    if q is not p:
+        env.claim_eq("displacement_is_perpendicular_to_the_contour_tangent", (q.R - p.R) * tang.R + (q.Z - p.Z) * tang.Z, 0)
 
 
 def ob_dispatch(env):
